@@ -315,10 +315,10 @@ def _freq_axes(prop):
             return None, f"`{unparse(st)[:60]}`", {}
         idx = []
         for a in st.value.args[:2]:
-            sub = [x for x in ast.walk(a) if isinstance(x, ast.Subscript) and isinstance(x.slice, ast.Constant)]
-            if len(sub) != 1:
+            src = _axis_source(prop, a)
+            if src is None:
                 return None, f"`{unparse(a)}`", {}
-            idx.append((unparse(sub[0].value), sub[0].slice.value))
+            idx.append(src)
         if idx[0][0] != "self.roi_shape" or idx[0][1] not in (0, 1):
             return None, f"extent `{idx[0]}`", {}
         names[st.targets[0].id] = idx[0][1]
@@ -329,6 +329,41 @@ def _freq_axes(prop):
         if idx[1] != ("sampling", idx[0][1]):
             return False, f"{nm} = fftfreq({idx[0][0]}[{idx[0][1]}], {idx[1][0]}[{idx[1][1]}])", names
     return True, str(out), names
+
+
+def _axis_source(fn, e: ast.AST, depth: int = 0):
+    """(base expression text, constant index) an extent / sampling argument is taken from, looking through
+    int()/float() casts, single-definition locals and tuple destructuring of `base` or of a generator over it."""
+    if depth > 4:
+        return None
+    if isinstance(e, ast.Call) and (call_name(e) or "") in ("int", "float") and len(e.args) == 1:
+        return _axis_source(fn, e.args[0], depth + 1)
+    if isinstance(e, ast.Subscript) and isinstance(e.slice, ast.Constant) and isinstance(e.slice.value, int):
+        return (unparse(e.value), e.slice.value % 2 if e.slice.value < 0 else e.slice.value)
+    if isinstance(e, ast.Name):
+        dd = definitions(fn, e.id)
+        if len(dd) != 1:
+            return None
+        d = dd[0]
+        if d.__class__.__name__ == "TupleItem":
+            v = d.value
+            if isinstance(v, ast.Call) and (call_name(v) or "") in ("tuple", "list") and len(v.args) == 1:
+                v = v.args[0]
+            if isinstance(v, (ast.GeneratorExp, ast.ListComp)) and len(v.generators) == 1 and not v.generators[0].ifs:
+                g = v.generators[0]
+                # element must be the loop variable itself, possibly cast
+                el = v.elt
+                while isinstance(el, ast.Call) and (call_name(el) or "") in ("int", "float") and len(el.args) == 1:
+                    el = el.args[0]
+                if isinstance(el, ast.Name) and isinstance(g.target, ast.Name) and el.id == g.target.id:
+                    return (unparse(g.iter), d.index)
+                return None
+            if isinstance(v, (ast.Attribute, ast.Name)):
+                return (unparse(v), d.index)
+            return None
+        if isinstance(d, ast.AST):
+            return _axis_source(fn, d, depth + 1)
+    return None
 
 
 def _broadcast_axis(sl: ast.AST):
